@@ -49,6 +49,19 @@ func zzNoDup(fs filesystem.Filespace, p string) bool {
 	return true
 }
 
+func zzListed(fs filesystem.Filespace, dir, name string) bool {
+	l, err := fs.ReadDir(dir)
+	if err != nil {
+		return false
+	}
+	for _, inf := range l {
+		if inf.Name() == name {
+			return true
+		}
+	}
+	return false
+}
+
 // zzOp performs operation kind k of goroutine g on its own path family.
 func zzOp(fs filesystem.Filespace, g int, k int, val []byte) error {
 	own := []string{"a", "b", "c"}[g]
@@ -68,6 +81,10 @@ func zzOp(fs filesystem.Filespace, g int, k int, val []byte) error {
 		return w.Close()
 	case 4:
 		return fs.WriteFile(own, val, filesystem.DefaultUnixFileMode)
+	case 5:
+		return fs.Remove("d/r" + own) // a file that exists from the start
+	case 6:
+		return fs.RemoveAll("d/t" + own) // a non-empty directory that exists from the start
 	}
 	return nil
 }
@@ -83,11 +100,19 @@ func ZZVerifC09Distinct() {
 	nd.Assume(fs.WriteFile("seed", []byte("s"), filesystem.DefaultUnixFileMode) == nil)
 	nd.Assume(fs.MkdirAll("d", filesystem.DefaultUnixDirMode) == nil)
 	g := nd.Param("G", 2)
+	// per goroutine a file and a non-empty directory to remove, and one
+	// bystander that nobody touches (listed last)
+	for i := 0; i < g; i++ {
+		own := []string{"a", "b", "c"}[i]
+		nd.Assume(fs.WriteFile("d/r"+own, []byte("r"), filesystem.DefaultUnixFileMode) == nil)
+		nd.Assume(fs.WriteFile("d/t"+own+"/k", []byte("k"), filesystem.DefaultUnixFileMode) == nil)
+	}
+	nd.Assume(fs.WriteFile("d/zkeep", []byte("z"), filesystem.DefaultUnixFileMode) == nil)
 	kinds := make([]int, g)
 	vals := make([][]byte, g)
 	errs := make([]error, g)
 	for i := 0; i < g; i++ {
-		kinds[i] = nd.IntRange("kind", 0, 4)
+		kinds[i] = nd.IntRange("kind", 0, 6)
 		vals[i] = nd.Bytes("val", 1)
 	}
 	var wg sync.WaitGroup
@@ -114,8 +139,20 @@ func ZZVerifC09Distinct() {
 		case 4:
 			d, err := fs.ReadFile(own)
 			nd.Assert(err == nil && bytes.Equal(d, vals[i]), "C09/distinct-rootwrite-visible")
+		case 5:
+			nd.Assert(!fs.IsExist("d/r"+own), "C09/distinct-remove-took-effect")
+		case 6:
+			nd.Assert(!fs.IsExist("d/t"+own) && !fs.IsExist("d/t"+own+"/k"), "C09/distinct-removeall-took-effect")
+		}
+		// what the goroutine did not remove is still there and listed
+		if kinds[i] != 5 {
+			nd.Assert(fs.IsFile("d/r"+own) && zzListed(fs, "d", "r"+own), "C09/distinct-untouched-file-survives")
+		}
+		if kinds[i] != 6 {
+			nd.Assert(fs.IsFile("d/t"+own+"/k") && zzListed(fs, "d", "t"+own), "C09/distinct-untouched-dir-survives")
 		}
 	}
+	nd.Assert(fs.IsFile("d/zkeep") && zzListed(fs, "d", "zkeep"), "C09/distinct-bystander-survives")
 	nd.Assert(zzNoDup(fs, "d") && zzNoDup(fs, "."), "C09/listing-duplicates")
 	nd.Assert(zzIndexConsistent(fs.root), "C09/index-consistent")
 	nd.Reach("C09/distinct-end")
